@@ -449,24 +449,48 @@ struct CapsRow {
     back: Vec<Vec<u8>>,
 }
 
-fn caps_arr<const N: usize>(vs: Vec<Vec<u8>>) -> CapsRow {
+fn caps_arr<const N: usize>(vs: Vec<Vec<u8>>, limit: Option<usize>) -> CapsRow {
     let mut a: [Vec<u8>; N] = vs.try_into().unwrap_or_else(|_| unreachable!());
     let spares = a.iter().map(BufMut::spare_capacity).collect();
-    let iov = unsafe { a.as_iovecs_mut() }.iter().map(iov_raw).collect();
-    let total = catch(|| a.total_spare_capacity());
-    let has = BufMutSlice::has_spare_capacity(&a);
-    CapsRow { spares, iov, total, has, back: a.into_iter().collect() }
+    match limit {
+        None => {
+            let iov = unsafe { a.as_iovecs_mut() }.iter().map(iov_raw).collect();
+            let total = catch(|| a.total_spare_capacity());
+            let has = BufMutSlice::has_spare_capacity(&a);
+            CapsRow { spares, iov, total, has, back: a.into_iter().collect() }
+        }
+        Some(l) => {
+            // a10's own `LimitedBuf<[Vec<u8>; N]>`
+            let mut lim = BufMutSlice::<N>::limit(a, l);
+            let iov = unsafe { BufMutSlice::<N>::as_iovecs_mut(&mut lim) }.iter().map(iov_raw).collect();
+            let total = catch(|| BufMutSlice::<N>::total_spare_capacity(&lim));
+            let has = BufMutSlice::<N>::has_spare_capacity(&lim);
+            CapsRow { spares, iov, total, has, back: lim.into_inner().into_iter().collect() }
+        }
+    }
 }
 
 macro_rules! caps_tup {
     ($name:ident, $n:literal; $($x:ident),+) => {
-        fn $name(vs: Vec<Vec<u8>>) -> CapsRow {
+        fn $name(vs: Vec<Vec<u8>>, limit: Option<usize>) -> CapsRow {
             let mut it = vs.into_iter();
             $( let $x = it.next().unwrap(); )+
             let mut t = ($($x),+);
-            let iov = unsafe { BufMutSlice::<$n>::as_iovecs_mut(&mut t) }.iter().map(iov_raw).collect();
-            let total = catch(|| BufMutSlice::<$n>::total_spare_capacity(&t));
-            let has = BufMutSlice::<$n>::has_spare_capacity(&t);
+            let (iov, total, has, t) = match limit {
+                None => {
+                    let iov = unsafe { BufMutSlice::<$n>::as_iovecs_mut(&mut t) }.iter().map(iov_raw).collect();
+                    let total = catch(|| BufMutSlice::<$n>::total_spare_capacity(&t));
+                    let has = BufMutSlice::<$n>::has_spare_capacity(&t);
+                    (iov, total, has, t)
+                }
+                Some(l) => {
+                    let mut lim = BufMutSlice::<$n>::limit(t, l);
+                    let iov = unsafe { BufMutSlice::<$n>::as_iovecs_mut(&mut lim) }.iter().map(iov_raw).collect();
+                    let total = catch(|| BufMutSlice::<$n>::total_spare_capacity(&lim));
+                    let has = BufMutSlice::<$n>::has_spare_capacity(&lim);
+                    (iov, total, has, lim.into_inner())
+                }
+            };
             let ($($x),+) = t;
             let back: Vec<Vec<u8>> = vec![$($x),+];
             let spares = back.iter().map(BufMut::spare_capacity).collect();
@@ -1817,7 +1841,7 @@ impl BufsCase {
     /// capacities (up to 8 GiB each, memory never touched): what do
     /// `spare_capacity`, `as_iovecs_mut`, `total_spare_capacity` and
     /// `has_spare_capacity` report? Concrete a10 types, no adapters.
-    fn caps(&mut self, tuple: bool, caps: &[usize], op: &str) -> Vec<String> {
+    fn caps(&mut self, tuple: bool, caps: &[usize], limit: Option<usize>, op: &str) -> Vec<String> {
         let mut vs = Vec::new();
         let mut maps = Vec::new();
         for c in caps {
@@ -1835,32 +1859,52 @@ impl BufsCase {
         let real: Vec<usize> = vs.iter().map(Vec::capacity).collect();
         let bases: Vec<usize> = vs.iter().map(|v| v.as_ptr() as usize).collect();
         let row = match (tuple, caps.len()) {
-            (false, 1) => caps_arr::<1>(vs),
-            (false, 2) => caps_arr::<2>(vs),
-            (false, 3) => caps_arr::<3>(vs),
-            (false, 4) => caps_arr::<4>(vs),
-            (false, 5) => caps_arr::<5>(vs),
-            (false, 6) => caps_arr::<6>(vs),
-            (false, 7) => caps_arr::<7>(vs),
-            (false, 8) => caps_arr::<8>(vs),
-            (true, 2) => caps_tup2(vs),
-            (true, 3) => caps_tup3(vs),
-            (true, 4) => caps_tup4(vs),
-            (true, 5) => caps_tup5(vs),
-            (true, 6) => caps_tup6(vs),
-            (true, 7) => caps_tup7(vs),
-            (true, 8) => caps_tup8(vs),
+            (false, 1) => caps_arr::<1>(vs, limit),
+            (false, 2) => caps_arr::<2>(vs, limit),
+            (false, 3) => caps_arr::<3>(vs, limit),
+            (false, 4) => caps_arr::<4>(vs, limit),
+            (false, 5) => caps_arr::<5>(vs, limit),
+            (false, 6) => caps_arr::<6>(vs, limit),
+            (false, 7) => caps_arr::<7>(vs, limit),
+            (false, 8) => caps_arr::<8>(vs, limit),
+            (true, 2) => caps_tup2(vs, limit),
+            (true, 3) => caps_tup3(vs, limit),
+            (true, 4) => caps_tup4(vs, limit),
+            (true, 5) => caps_tup5(vs, limit),
+            (true, 6) => caps_tup6(vs, limit),
+            (true, 7) => caps_tup7(vs, limit),
+            (true, 8) => caps_tup8(vs, limit),
             _ => unreachable!(),
         };
         let CapsRow { spares, iov, total, has, back } = row;
         give_back(back, &maps);
         // Oracle.
         let sum: u64 = iov.iter().map(|r| r.1 as u64).sum();
+        if let Some(l) = limit {
+            // LimitedBuf laws (independent of the model): never more than the limit in
+            // total, buffers filled front to back, nothing cut off while the limit allows it.
+            if sum > l as u64 {
+                self.fail("limit/exceeded", format!("limit {l}: the iovecs expose {sum} bytes ({op})"));
+            }
+            let mut left = l as u64;
+            for (i, (_, n)) in iov.iter().enumerate() {
+                let want = (spares[i] as u64).min(left);
+                if *n as u64 != want {
+                    self.fail("limit/shape", format!("limit {l}: iovec {i} has {n} bytes, expected {want} (spare {}, {left} left of the limit) ({op})", spares[i]));
+                }
+                left -= want.min(left);
+            }
+            self.feat("lcaps");
+            let all: u64 = spares.iter().map(|x| *x as u64).sum();
+            if all > u32::MAX as u64 && l as u64 >= u32::MAX as u64 && (l as u64) < all {
+                self.feat("lcaps-limit-binds-above-2^32");
+            }
+        }
         for (i, (p, n)) in iov.iter().enumerate() {
             if *p != bases[i] || *n > real[i] {
                 self.fail("inside/write", format!("vector {i} of capacity {}: exposed offset {} length {n} ({op})", real[i], p.wrapping_sub(bases[i])));
             }
-            if spares[i] as usize != *n {
+            if limit.is_none() && spares[i] as usize != *n {
                 self.fail("len/spare", format!("vector {i}: spare_capacity() = {} but parts_mut().1 = {n} ({op})", spares[i]));
             }
         }
@@ -1870,11 +1914,24 @@ impl BufsCase {
             // The reported total is the total of the iovecs, saturated at u32::MAX.
             let want = sum.min(u32::MAX as u64);
             match &total {
+                _ if limit.is_some() => {
+                    // min(inner total (saturated), limit) as u32
+                    let all: u64 = spares.iter().map(|x| *x as u64).sum::<u64>().min(u32::MAX as u64);
+                    let w = all.min(limit.unwrap() as u64);
+                    if total.as_ref().ok().map(|t| *t as u64) != Some(w) {
+                        self.fail("len/spare", format!("limited total_spare_capacity() = {total:?}, expected {w} ({op})"));
+                    }
+                }
                 Ok(t) if *t as u64 == want => {}
                 Ok(t) => self.fail("len/spare", format!("total_spare_capacity() = {t} but the iovecs expose {sum} bytes ({op})")),
                 Err(e) => self.fail("len/spare", format!("total_spare_capacity() panicked ({e}) with {sum} bytes exposed ({op})")),
             }
-            if has != (sum != 0) {
+            if limit.is_some() {
+                let inner = spares.iter().any(|x| *x != 0);
+                if has != (limit != Some(0) && inner) {
+                    self.fail("len/has_spare", format!("limited has_spare_capacity() = {has} ({op})"));
+                }
+            } else if has != (sum != 0) {
                 self.fail("len/has_spare", format!("has_spare_capacity() = {has} but the iovecs expose {sum} bytes ({op})"));
             }
         }
@@ -1983,9 +2040,9 @@ impl Case for BufsCase {
         }
         if !self.capsed {
             self.capsed = true;
-            if rng.chance(1, 40) {
+            if rng.chance(1, 20) {
                 let tuple = rng.chance(1, 2);
-                let big = rng.chance(1, 5);
+                let big = rng.chance(2, 5);
                 let n = if big { rng.range(if tuple { 2 } else { 1 }, 3) } else { gen_arity(rng, tuple).max(1) as u64 };
                 let w = 1u64 << 32;
                 let caps: Vec<String> = (0..n)
@@ -2007,6 +2064,23 @@ impl Case for BufsCase {
                         .to_string()
                     })
                     .collect();
+                if rng.chance(1, 2) {
+                    // the same vectors under a `LimitedBuf`: limits around the total, around
+                    // 2^32, around single capacities, 0, huge
+                    let cs: Vec<u64> = caps.iter().map(|c| c.parse().unwrap_or(0)).collect();
+                    let total: u64 = cs.iter().sum();
+                    let l = match if total > u32::MAX as u64 && rng.chance(1, 2) { 6 } else { rng.below(8) } {
+                        0 => 0,
+                        1 => total.saturating_sub(rng.below(3)),
+                        2 => total + rng.below(3),
+                        3 => w - 2 + rng.below(5),
+                        4 => cs[0].saturating_sub(rng.below(2)) + rng.below(2),
+                        5 => rng.below(total + 2),
+                        6 => u32::MAX as u64 + rng.below(total.saturating_sub(u32::MAX as u64) + 1),
+                        _ => u64::MAX - rng.below(3),
+                    };
+                    return Some(format!("bufs lcaps {} {} {l}", if tuple { "tup" } else { "arr" }, caps.join(",")));
+                }
                 return Some(format!("bufs caps {} {}", if tuple { "tup" } else { "arr" }, caps.join(",")));
             }
         }
@@ -2047,7 +2121,18 @@ impl Case for BufsCase {
                         && (*k == "arr" || cs.len() >= 2)
                         && cs.iter().all(|c| *c <= MAX_HUGE) =>
                 {
-                    self.caps(*k == "tup", &cs, op)
+                    self.caps(*k == "tup", &cs, None, op)
+                }
+                _ => vec!["bad-op".into()],
+            },
+            ["bufs", "lcaps", k @ ("arr" | "tup"), cs, l] => match (parse_list(cs, dec_usize), dec_usize(l)) {
+                (Some(cs), Some(l))
+                    if !cs.is_empty()
+                        && cs.len() <= 8
+                        && (*k == "arr" || cs.len() >= 2)
+                        && cs.iter().all(|c| *c <= MAX_HUGE) =>
+                {
+                    self.caps(*k == "tup", &cs, Some(l), op)
                 }
                 _ => vec!["bad-op".into()],
             },
